@@ -4,7 +4,6 @@ package c18
 
 import (
 	"fmt"
-	"os"
 	"regexp"
 	"runtime"
 	"strconv"
@@ -301,12 +300,14 @@ var (
 	fatalInject   func(c injectCase, msg string)
 	fatalAbnormal func(c abnormalCase, msg string)
 	fatalPoll     func(c pollCase, msg string)
+	fatalAsync    func(c asyncCase, msg string)
 )
 
 func init() {
 	fatalInject = func(c injectCase, msg string) { injectFacet.Fatal(c, msg) }
 	fatalAbnormal = func(c abnormalCase, msg string) { abnormalFacet.Fatal(c, msg) }
 	fatalPoll = func(c pollCase, msg string) { pollFacet.Fatal(c, msg) }
+	fatalAsync = func(c asyncCase, msg string) { asyncFacet.Fatal(c, msg) }
 }
 
 func checkInject(c injectCase) harness.Outcome {
@@ -710,6 +711,7 @@ func TestStackDepthSweep(t *testing.T) { sweepFacet.Run(t) }
 type asyncCase struct {
 	Src     string `json:"src"`
 	DelayUS int    `json:"delay_us"`
+	Cap     int    `json:"cap"` // capacity of the interrupt channel: 0 = unbuffered (the sender blocks until the interpreter receives)
 }
 
 func cpuSeconds() float64 {
@@ -741,14 +743,15 @@ var nonTerminating = func() []string {
 
 var asyncFacet = harness.Register(&harness.Facet[asyncCase]{
 	Name:     "async-delivery",
-	Rule:     "rapid: a non-terminating program (every empty-bodied loop form, loops inside callbacks of sort/forEach/replace) and a delay; another goroutine sends a panicking function on the interrupt channel after the delay; oracle: Run ends with that panic within the watchdog (10 s of process CPU time after the send, measured with getrusage so that machine load cannot fake it; re-confirmed once; 150 s of wall clock without that much CPU is a discard), the function ran on the goroutine that called Run, nothing ran after it, runtime reusable. Deterministic companion: for every loop form, k more iterations cause >= k more polls (bounded progress between polls). Non-trivial = every case; distinct by (program, delay)",
+	Rule:     "rapid: a non-terminating program (every empty-bodied loop form, loops inside callbacks of sort/forEach/replace) and a delay; another goroutine sends a panicking function on the interrupt channel (capacity 0 = unbuffered, 1 or 4) after the delay; oracle: Run ends with that panic within the watchdog (10 s of process CPU time after the send, measured with getrusage so that machine load cannot fake it; re-confirmed once; 150 s of wall clock without that much CPU is a discard), the function ran on the goroutine that called Run, nothing ran after it, runtime reusable. Deterministic companion: for every loop form, k more iterations cause >= k more polls (bounded progress between polls). Non-trivial = every case; distinct by (program, delay)",
 	Quick:    60,
 	Thorough: 400,
 	Gen: func(t *rapid.T) asyncCase {
-		return asyncCase{Src: rapid.SampledFrom(nonTerminating).Draw(t, "src"), DelayUS: rapid.IntRange(0, 3000).Draw(t, "delay")}
+		return asyncCase{Src: rapid.SampledFrom(nonTerminating).Draw(t, "src"), DelayUS: rapid.IntRange(0, 3000).Draw(t, "delay"),
+			Cap: rapid.SampledFrom([]int{1, 0, 0, 4}).Draw(t, "cap")}
 	},
 	Check: func(c asyncCase) harness.Outcome {
-		out := harness.Outcome{Nontrivial: true}
+		out := harness.Outcome{Nontrivial: true, Classes: []string{"channel-capacity:" + strconv.Itoa(c.Cap)}}
 		attempt := func() (string, bool) {
 			vm := otto.New()
 			var trace []string
@@ -756,7 +759,7 @@ var asyncFacet = harness.Register(&harness.Facet[asyncCase]{
 				trace = append(trace, call.Argument(0).String())
 				return otto.UndefinedValue()
 			})
-			vm.Interrupt = make(chan func(), 1)
+			vm.Interrupt = make(chan func(), c.Cap)
 			runG := ""
 			firedG := ""
 			after := -1
@@ -821,7 +824,8 @@ var asyncFacet = harness.Register(&harness.Facet[asyncCase]{
 			return out
 		}
 		if timedOut {
-			fmt.Fprintln(os.Stderr, "async-delivery: watchdog hit twice for", c.Src)
+			// the run is still spinning on its goroutine and cannot be stopped: report without shrinking
+			fatalAsync(c, msg+"\n"+c.Src)
 		}
 		if msg != "" {
 			out.Fail = msg + "\n" + c.Src
